@@ -553,9 +553,9 @@ class MADDPG(MultiAgentRLAlgorithm):
         """
         states, actions, rewards, next_states, dones = experiences
 
+        # In agent order: the joint critics concatenate the actions in the order of this dictionary
         actions = {
-            agent_id: agent_actions.to(self.device)
-            for agent_id, agent_actions in actions.items()
+            agent_id: actions[agent_id].to(self.device) for agent_id in self.agent_ids
         }
         rewards = {
             agent_id: agent_rewards.to(self.device)
